@@ -59,6 +59,7 @@ type Machine struct {
 	trace      bool
 	initDirect *ssa.Function
 	fpMemo     map[fpKey]*Term
+	fpOrigin   map[*Term]*Term // float64 var -> the float32 term it widens
 }
 
 type deferred struct {
